@@ -1,10 +1,44 @@
 /-
   C02 — Parallel learning is independent of the schedule and always terminates.
+
+  How the pieces compose (threading):
+    work-queue protocol (`qStep`, what the harness validates real traces against)
+      ⊑ refined protocol (`rStep`: each worker holds the remaining program of the
+        kernel call it is in; `protocol_refines` / `protocol_lifts`)
+      ⇒ every complete non-failing run performs an `Interleave` of the part
+        programs, each exactly once (`protocol_run_interleaves`)
+      ⇔ `ValidThreading` (`valid_threading_iff_interleave`)
+      ⇒ every owned row holds the specification (`schedule_independent_threading`,
+        assembled in `threading_protocol_schedule_independent`).
+  OpenMP: `ValidOpenmp` ⇔ files in order, inside a file any operational
+  interleaving of the per-part programs (`valid_openmp_iff_interleave`).  There
+  is no protocol to compose: `prange` hands every iteration to exactly one
+  thread and the `parallel` block ends with a barrier (OpenMP semantics,
+  trusted); termination of the OpenMP path is by construction of the model.
+
+  NAMED ASSUMPTIONS (not proved; to be listed in DESIGN §2/§7):
+    * `MicroStepAtomicity`: the unit of interleaving is the micro-step (one
+      weight row processing one event).  The real kernels interleave at the
+      level of single loads and stores.  Assumed: every sequentially consistent
+      access-level interleaving of kernel calls owning pairwise disjoint rows
+      leaves the weights some micro-step interleaving leaves.  Proved towards
+      it: `footprint_disjoint` (different rows, disjoint cells),
+      `micro_steps_commute`, `schedule_determined_by_row_projections`; steps of
+      one row belong to one kernel call (`parts_disjoint`) and are ordered by
+      it.  The reduction itself needs an access-level semantics the model does
+      not have.
+    * data-race freedom ⇒ sequential consistency for the C11/OpenMP memory
+      model and the GIL-released `nogil` kernels (already in §7).
+    * the refined protocol `rStep` is the operational meaning of
+      "worker = loop { lock; if empty: break; get } ; kernel call": a modelling
+      claim, tied to the code by the trace validation of the differential run
+      (real lock/queue traces are accepted by `qStep`; `protocol_refines`).
 -/
 import PyndlProofs.SeqSchedule
 import PyndlProofs.Queue
 import PyndlProofs.Interleave
 import PyndlProofs.Bounds32
+import PyndlProofs.QueueSchedule
 
 namespace Pyndl.C02
 open Pyndl List
@@ -119,6 +153,154 @@ theorem valid_schedules_exist (files : List (List (Event Nat Nat))) (parts : Lis
     ValidOpenmp parts files (seqOpenmpFrom parts 0 files) :=
   ⟨seqThreading_valid files parts, seqOpenmp_valid parts 0 files⟩
 
+/-- `ValidThreading` and the operational `Interleave` are the SAME notion
+    (both directions): a sequence of micro-steps is a valid threading schedule
+    iff it arises by repeatedly running the next micro-step of some kernel call. -/
+theorem valid_threading_iff_interleave (parts : List (List Nat)) (files : List (List (Event Nat Nat)))
+    (s : List MicroStep) :
+    ValidThreading parts files s ↔ Interleave (threadingPrograms parts files) s :=
+  validThreading_iff_interleave parts files s
+
+/-- **OpenMP, operationally.** `ValidOpenmp` is exactly: chunk files in order
+    (the barrier at the end of each `parallel` block), and inside a file any
+    operational interleaving of the per-part programs of that file — any thread
+    count, any assignment of `prange` iterations to threads, any timing. -/
+theorem valid_openmp_iff_interleave (parts : List (List Nat)) (files : List (List (Event Nat Nat)))
+    (s : List MicroStep) :
+    ValidOpenmp parts files s ↔ InterleaveOpenmpFrom parts 0 files s :=
+  validOpenmpFrom_iff_interleave parts files 0 s
+
+/-- … hence every such OpenMP execution gives the specification's rows -/
+theorem openmp_any_interleaving {parts : List (List Nat)} (hp : PartsOk parts)
+    (files : List (List (Event Nat Nat))) (n nOut : Nat) (alpha β₁ β₂ lam : R)
+    (hrows : ∀ k, k < parts.length → ∀ o ∈ parts.getD k [], o < nOut)
+    (hcues : ∀ e ∈ files.flatten, ∀ c ∈ e.cues, c < n)
+    (w : Array R) (hw : w.size = n * nOut)
+    (s : List MicroStep) (h : InterleaveOpenmpFrom parts 0 files s)
+    (k : Nat) (hk : k < parts.length) (o : Nat) (ho : o ∈ parts.getD k []) :
+    rowFn n (execSteps alpha β₁ β₂ lam n w s) o
+      = rwLearn (fun _ => alpha) β₁ β₂ lam (fun o => rowFn n w o) files.flatten o :=
+  openmp_schedule_independent hp files n nOut alpha β₁ β₂ lam hrows hcues w hw s
+    ((validOpenmpFrom_iff_interleave parts files 0 s).mpr h) k hk o ho
+
+/-- **each row sees each event exactly once, in order** (threading): in every
+    valid schedule the micro-steps that address an owned row `o`, in the order
+    they are performed, carry exactly the events of all chunk files in file
+    order — none skipped, none repeated, none reordered. -/
+theorem threading_row_exactly_once {parts : List (List Nat)} (hp : PartsOk parts)
+    (files : List (List (Event Nat Nat))) (s : List MicroStep) (hv : ValidThreading parts files s)
+    (k : Nat) (hk : k < parts.length) (o : Nat) (ho : o ∈ parts.getD k []) :
+    (s.filter (fun st => st.row = o)).map (·.ev) = files.flatten :=
+  threading_proj hp files s hv k hk o ho
+
+/-- the same for OpenMP schedules -/
+theorem openmp_row_exactly_once {parts : List (List Nat)} (hp : PartsOk parts)
+    (files : List (List (Event Nat Nat))) (s : List MicroStep) (hv : ValidOpenmp parts files s)
+    (k : Nat) (hk : k < parts.length) (o : Nat) (ho : o ∈ parts.getD k []) :
+    (s.filter (fun st => st.row = o)).map (·.ev) = files.flatten :=
+  openmp_proj hp files 0 s hv k hk o ho
+
+/-- **the result of a schedule depends only on its per-row projections**: two
+    sequences of (well-formed) micro-steps in which every row sees the same
+    events in the same order leave the same weights in every row — whatever the
+    relative order of steps of different rows. -/
+theorem schedule_determined_by_row_projections (n nOut : Nat) (alpha β₁ β₂ lam : R)
+    (s s' : List MicroStep) (hok : ∀ st ∈ s, StepOk n nOut st) (hok' : ∀ st ∈ s', StepOk n nOut st)
+    (w : Array R) (hw : w.size = n * nOut)
+    (hproj : ∀ o, (s.filter (fun st => st.row = o)).map (·.ev) = (s'.filter (fun st => st.row = o)).map (·.ev))
+    (o : Nat) :
+    rowFn n (execSteps alpha β₁ β₂ lam n w s) o = rowFn n (execSteps alpha β₁ β₂ lam n w s') o := by
+  rw [(exec_row n nOut alpha β₁ β₂ lam s hok w hw o).2, (exec_row n nOut alpha β₁ β₂ lam s' hok' w hw o).2,
+    hproj o]
+
+/-- **micro-steps of different rows commute**: swapping two adjacent micro-steps
+    that address different weight rows, anywhere in a schedule, changes no row
+    of the result (the semantic content of `footprint_disjoint`). -/
+theorem micro_steps_commute (n nOut : Nat) (alpha β₁ β₂ lam : R) (pre post : List MicroStep)
+    (a b : MicroStep) (hab : a.row ≠ b.row)
+    (hok : ∀ st ∈ pre ++ a :: b :: post, StepOk n nOut st)
+    (w : Array R) (hw : w.size = n * nOut) (o : Nat) :
+    rowFn n (execSteps alpha β₁ β₂ lam n w (pre ++ a :: b :: post)) o
+      = rowFn n (execSteps alpha β₁ β₂ lam n w (pre ++ b :: a :: post)) o := by
+  apply schedule_determined_by_row_projections n nOut alpha β₁ β₂ lam _ _ hok _ w hw
+  · intro o'
+    simp only [List.filter_append, List.filter_cons, List.map_append]
+    by_cases ha : a.row = o' <;> by_cases hb : b.row = o'
+    · exact absurd (ha.trans hb.symm) hab
+    · simp [ha, hb]
+    · simp [ha, hb]
+    · simp [ha, hb]
+  · intro st hst
+    apply hok st
+    simp only [List.mem_append, List.mem_cons] at hst ⊢
+    tauto
+
+/-! ## The protocol composed with the schedules -/
+
+/-- **the refined protocol refines the work-queue protocol**: forgetting the
+    kernel program counters and the `micro` actions, every run of `rStep` is a
+    run of `qStep` (the transition system real lock/queue traces are validated
+    against) … -/
+theorem protocol_refines {α : Type} (prog : Nat → List α) (as : List RAction) (s s' : RState α)
+    (out : List α) (h : rRun prog s as = some (s', out)) :
+    qRun s.erase (as.filterMap RAction.erase) = some s'.erase :=
+  rRun_erase prog as s s' out h
+
+/-- … and conversely every run of the work-queue protocol from the initial
+    state is the erasure of a run of the refined protocol: the refinement
+    excludes no order in which parts are taken, finished or failed. -/
+theorem protocol_lifts {α : Type} (prog : Nat → List α) (p t : Nat) (as : List QAction) (q : QState)
+    (h : qRun (qInit p t) as = some q) :
+    ∃ (as' : List RAction) (s' : RState α) (out : List α),
+      rRun prog (rInit p t) as' = some (s', out) ∧ as'.filterMap RAction.erase = as ∧ s'.erase = q := by
+  obtain ⟨as', s', out, h1, h2, h3, _⟩ :=
+    qRun_lift prog as (rInit p t) q (unstarted_init prog p t) (by rw [rInit_erase]; exact h)
+  exact ⟨as', s', out, h1, h2, h3⟩
+
+/-- **protocol ⇒ interleaving** (any per-part programs).  In every complete run
+    of the work-queue protocol with `t ≥ 1` workers (also more workers than
+    parts) in which no kernel call failed, the steps performed are an
+    operational interleaving of the part programs `prog 0, …, prog (p-1)`: each
+    part's program is run exactly once, completely, in its own order — and the
+    parts handed out are exactly `0 … p-1`, each once. -/
+theorem protocol_run_interleaves {α : Type} (prog : Nat → List α) (p t : Nat) (ht : 1 ≤ t)
+    (as : List RAction) (s : RState α) (out : List α)
+    (hrun : rRun prog (rInit p t) as = some (s, out))
+    (hfin : qFinal s.erase = true) (hok : qRaises s.erase = false) :
+    Interleave ((List.range p).map prog) out ∧ s.taken = List.range p :=
+  Pyndl.protocol_run_interleaves prog p t ht as s out hrun hfin hok
+
+/-- **what the threading protocol can actually produce is schedule
+    independent.**  `parts` the row lists `slice_list` produced, `files` the
+    chunk files, `t ≥ 1` worker threads: for EVERY complete run of the refined
+    work-queue protocol in which no kernel call failed — every order in which
+    workers take parts, every interleaving of the micro-steps of the running
+    kernel calls — the micro-steps performed form a valid schedule, every row
+    sees every event exactly once in order, and every owned row of the weights
+    holds the specification's result. -/
+theorem threading_protocol_schedule_independent {parts : List (List Nat)} (hp : PartsOk parts)
+    (files : List (List (Event Nat Nat))) (n nOut : Nat) (alpha β₁ β₂ lam : R)
+    (hrows : ∀ k, k < parts.length → ∀ o ∈ parts.getD k [], o < nOut)
+    (hcues : ∀ e ∈ files.flatten, ∀ c ∈ e.cues, c < n)
+    (w : Array R) (hw : w.size = n * nOut)
+    (t : Nat) (ht : 1 ≤ t) (as : List RAction) (st : RState MicroStep) (s : List MicroStep)
+    (hrun : rRun (fun k => partProgram k (parts.getD k []) files) (rInit parts.length t) as = some (st, s))
+    (hfin : qFinal st.erase = true) (hok : qRaises st.erase = false) :
+    Interleave (threadingPrograms parts files) s ∧ ValidThreading parts files s ∧
+    st.taken = List.range parts.length ∧
+    ∀ k, k < parts.length → ∀ o ∈ parts.getD k [],
+      (s.filter (fun x => x.row = o)).map (·.ev) = files.flatten ∧
+      rowFn n (execSteps alpha β₁ β₂ lam n w s) o
+        = rwLearn (fun _ => alpha) β₁ β₂ lam (fun o => rowFn n w o) files.flatten o := by
+  obtain ⟨hi, htaken⟩ := Pyndl.protocol_run_interleaves
+    (fun k => partProgram k (parts.getD k []) files) parts.length t ht as st s hrun hfin hok
+  have hi' : Interleave (threadingPrograms parts files) s := hi
+  have hv := interleave_is_valid_threading parts files s hi'
+  refine ⟨hi', hv, htaken, ?_⟩
+  intro k hk o ho
+  exact ⟨threading_proj hp files s hv k hk o ho,
+    threading_schedule_independent hp files n nOut alpha β₁ β₂ lam hrows hcues w hw s hv k hk o ho⟩
+
 /-- **exactly once**: in every complete run of the work-queue protocol with at
     least one worker in which no kernel call failed, the parts handed out are
     exactly the parts enqueued, each once, in order — also with more workers
@@ -197,4 +379,66 @@ workers (more workers than parts) exists and ends final. -/
 example : ∃ as, (qRun (qInit 2 3) as).map (fun s => (qFinal s, s.taken)) = some (true, [0, 1]) :=
   ⟨[.take 0, .take 2, .exit 1, .finish 2, .finish 0, .exit 0, .exit 2], by decide +kernel⟩
 
+/-! non-vacuity of `protocol_run_interleaves` and
+`threading_protocol_schedule_independent`: two parts (rows `[0]` and `[1]`), two
+chunk files (two events, one event), two workers.  Worker 1 takes part 0,
+worker 0 takes part 1, their micro-steps alternate.  Every hypothesis is
+discharged; the run is complete and not raising; the micro-steps performed
+belong to parts 0,1,1,0,1,0. -/
+
+def exParts : List (List Nat) := [[0], [1]]
+def exFiles : List (List (Event Nat Nat)) := [[⟨[0, 1], [0]⟩, ⟨[1], [1]⟩], [⟨[0], [0, 1]⟩]]
+def exProg : Nat → List MicroStep := fun k => partProgram k (exParts.getD k []) exFiles
+def exActions : List RAction :=
+  [.take 1, .take 0, .micro 1, .micro 0, .micro 0, .micro 1, .micro 0, .finish 0, .micro 1,
+   .finish 1, .exit 1, .exit 0]
+
+example :
+    (rRun exProg (rInit 2 2) exActions).map
+        (fun r => (qFinal r.1.erase, qRaises r.1.erase, r.1.taken, r.2.map (·.part), r.2.map (·.row)))
+      = some (true, false, [0, 1], [0, 1, 1, 0, 1, 0], [0, 1, 1, 0, 1, 0]) := by
+  decide +kernel
+
+example :
+    ∃ st s, rRun exProg (rInit 2 2) exActions = some (st, s) ∧
+      Interleave (threadingPrograms exParts exFiles) s ∧ ValidThreading exParts exFiles s ∧
+      st.taken = [0, 1] ∧
+      ∀ k, k < 2 → ∀ o ∈ exParts.getD k [],
+        (s.filter (fun x => x.row = o)).map (·.ev) = exFiles.flatten ∧
+        rowFn 2 (execSteps (1 : ℤ) 1 1 1 2 #[0, 0, 0, 0] s) o
+          = rwLearn (fun _ => (1 : ℤ)) 1 1 1 (fun o => rowFn 2 (#[0, 0, 0, 0] : Array ℤ) o) exFiles.flatten o := by
+  match h : rRun exProg (rInit 2 2) exActions with
+  | none => exact absurd h (by decide +kernel)
+  | some (st, s) =>
+    have hfin : qFinal st.erase = true := by
+      have : (rRun exProg (rInit 2 2) exActions).map (fun r => qFinal r.1.erase) = some true := by
+        decide +kernel
+      rw [h] at this; simpa using this
+    have hok : qRaises st.erase = false := by
+      have : (rRun exProg (rInit 2 2) exActions).map (fun r => qRaises r.1.erase) = some false := by
+        decide +kernel
+      rw [h] at this; simpa using this
+    exact ⟨st, s, rfl,
+      threading_protocol_schedule_independent (R := ℤ) (parts := exParts)
+        (partsOk_of_nodup_flatten _ (by decide)) exFiles 2 2 1 1 1 1 (by decide) (by decide)
+        #[0, 0, 0, 0] (by decide) 2 (by decide) exActions st s h hfin hok⟩
+
+/-! non-vacuity of `valid_openmp_iff_interleave` / `openmp_any_interleaving`: the
+sequential OpenMP reference schedule is such an interleaving; and of
+`protocol_lifts`: the protocol run of the example further up (2 parts, 3
+workers) is the erasure of a refined run. -/
+example : InterleaveOpenmpFrom exParts 0 exFiles (seqOpenmpFrom exParts 0 exFiles) :=
+  (valid_openmp_iff_interleave exParts exFiles _).mp (valid_schedules_exist exFiles exParts).2
+
+example : ∃ (as' : List RAction) (s' : RState MicroStep) (out : List MicroStep),
+    rRun exProg (rInit 2 3) as' = some (s', out) ∧
+    as'.filterMap RAction.erase = [.take 0, .take 2, .exit 1, .finish 2, .finish 0, .exit 0, .exit 2] :=
+  match h : qRun (qInit 2 3) [.take 0, .take 2, .exit 1, .finish 2, .finish 0, .exit 0, .exit 2] with
+  | none => absurd h (by decide +kernel)
+  | some q =>
+    let ⟨as', s', out, h1, h2, _⟩ := protocol_lifts exProg 2 3 _ q h
+    ⟨as', s', out, h1, h2⟩
+
 end Pyndl.C02
+
+
